@@ -782,6 +782,16 @@ func (e *Eval) block(fr *frame, b *ssa.BasicBlock, prev *ssa.BasicBlock, from in
 					break
 				}
 			}
+			if mt, isMap := x.X.Type().Underlying().(*types.Map); isMap && m.K == Nil {
+				// reading a nil map: the zero value, "absent"
+				v := zeroOf(mt.Elem())
+				if x.CommaOk {
+					fr.env[x] = Value{K: Tuple, Elems: []Value{v, Bool(false)}}
+				} else {
+					fr.env[x] = v
+				}
+				break
+			}
 			if m.K == Const && m.C.Kind() == constant.String && !x.CommaOk {
 				str := constant.StringVal(m.C)
 				if i, ok := constIndex(k, len(str)); ok {
@@ -952,6 +962,12 @@ func (e *Eval) doCall(fr *frame, x *ssa.Call, st *state, depth int) []result {
 	callee := x.Call.StaticCallee()
 	if callee == nil {
 		// interface method or function value: anything may happen to the untracked objects
+		// a closure (or function value) whose function is known: evaluated like a static call, with its bindings
+		if !x.Call.IsInvoke() {
+			if fv := e.val(fr, x.Call.Value); fv.Fn != nil && depth < e.MaxDepth && (e.Follow == nil || e.Follow(fv.Fn)) {
+				return e.callBound(fv.Fn, args, fv.Elems, st, depth+1)
+			}
+		}
 		name := "dynamic"
 		if x.Call.IsInvoke() {
 			name = "invoke " + x.Call.Method.Name()
